@@ -175,9 +175,12 @@ def lk4(ctx, flavours):
             secs = critical_sections(ctx, b)
             ex = [s for s in secs]
             multiset = sorted('%s(%s)' % s for s in ex)
+            # the finding is identified by *which* locks are taken in which mode (a set: how often, and whether in a loop, changes with
+            # harmless restyling); the detail line carries the exact multiset
+            kinds = sorted({'%s(%s)' % (m.rstrip('*'), o) for m, o in ex})
             ok = len(ex) <= 1 and not any(m.endswith('*') for m, _ in ex)
-            out.append(Obl('LK4', b['q'], b['span'], 'critical sections {%s}' % ', '.join(multiset), ok,
-                           'single critical section' if ok else 'compound operation: %d separate critical sections; intermediate states are visible to other threads' % len(ex)))
+            out.append(Obl('LK4', b['q'], b['span'], 'critical sections on {%s}' % ', '.join(kinds), ok,
+                           'single critical section' if ok else 'compound operation: %d separate critical sections {%s}; intermediate states are visible to other threads' % (len(ex), ', '.join(multiset))))
     return out
 
 
